@@ -173,7 +173,7 @@ Variables c0 b0 a0 ninf : Z.
 Local Notation n := (length pts).
 Hypothesis Hsorted : forall i j, (i <= j < n)%nat -> f3 (nth i pts d0) <= f3 (nth j pts d0).
 Hypothesis Hbox : forall a, In a pts -> (c0 <= f1 a <= 0) /\ (b0 <= f2 a <= 0) /\ (a0 <= f3 a <= 0).
-Hypothesis Hninf : ninf < c0 /\ ninf < b0.
+Hypothesis Hninf : forall a, In a pts -> ninf < f1 a /\ ninf < f2 a.
 Hypothesis HND : forall i j, (i < n)%nat -> (j < n)%nat ->
   f1 (nth i pts d0) <= f1 (nth j pts d0) -> f2 (nth i pts d0) <= f2 (nth j pts d0) ->
   f3 (nth i pts d0) <= f3 (nth j pts d0) ->
@@ -268,10 +268,11 @@ Lemma step_decomp j st F Z0 : GInv j st F Z0 -> (j < n)%nat ->
            (new_contr st p (lft_of pts ninf F1) (rgt_of pts ninf (E ++ G)) D).
 Proof.
   intros HG Hj. cbv zeta. pose proof HG as (G0 & G1 & G2 & G3 & GZ & G4 & _).
-  destruct (pt_box j Hj) as (B1 & B2 & B3).
+  destruct (pt_box j Hj) as (B1 & B2 & B3). destruct (Hninf _ (nth_In pts d0 Hj)) as [N1 N2].
   apply (step3_decomposed pts ninf st j F Z0); auto; try lia.
   - intros e He. split; [apply G3; auto|].
-    destruct (front_elem j st F Z0 e HG ltac:(lia) ltac:(apply in_or_app; auto)) as (_ & _ & _ & _ & _ & X). lia.
+    destruct (front_elem j st F Z0 e HG ltac:(lia) ltac:(apply in_or_app; auto)) as (Xi & _ & X2 & _).
+    rewrite X2. apply Hninf. apply nth_In. lia.
   - intros e He. destruct (front_elem j st F Z0 e HG ltac:(lia) ltac:(apply in_or_app; auto)) as (_ & X1 & X2 & _). auto.
   - destruct (span (fun e => f1 e <? f1 (nth j pts d0)) F) as [F1' F2'] eqn:E1. cbn [fst].
     destruct (span_spec _ _ _ _ E1) as [EF [H1 _]]. apply Z.ltb_ge.
@@ -338,6 +339,7 @@ Proof.
   set (p := nth j pts d0) in *. set (lft := lft_of pts ninf F1). set (rgt := rgt_of pts ninf (E ++ G)).
   pose proof HG as (G0 & G1 & G2 & G3 & GZ & G4 & G5 & BL & CL & Bn & Bj & B1 & B2). unfold Lb in B1, B2.
   destruct (pt_box j Hj) as (P1 & P2 & P3). fold p in P1, P2, P3.
+  destruct (Hninf _ (nth_In pts d0 Hj)) as [Np1 Np2]. fold p in Np1, Np2.
   assert (Hjn : (j <= n)%nat) by lia.
   assert (FE : forall e, In e (F ++ Z0) ->
             (idx e < j)%nat /\ f1 e = f1 (nth (idx e) pts d0) /\ f2 e = f2 (nth (idx e) pts d0) /\
@@ -370,7 +372,7 @@ Proof.
                (forall e, In e (E ++ G) -> e = rgt \/ f1 rgt <= f1 e) /\
                ((E ++ G = [] /\ rgt = sentR) \/ In rgt (E ++ G))).
   { destruct (rgt_cases (E ++ G)) as [[E1 E2]|[t E1]]; fold rgt in E2 || fold rgt in E1.
-    - rewrite E2. cbn [sentR C13Contrib3dStepProofs.sentR idx f1 f2]. destruct Hninf. repeat split; try lia.
+    - rewrite E2. cbn [sentR C13Contrib3dStepProofs.sentR idx f1 f2]. repeat split; try lia.
       + intros e He. rewrite E1 in He. destruct He.
       + left. auto.
     - assert (Hin : In rgt (E ++ G)) by (rewrite E1; now left).
@@ -676,6 +678,156 @@ Proof.
       * destruct Lf5 as [[_ L1]|Hin]; [rewrite L1 in El; cbn in El; lia|].
         rewrite (InFt (F ++ Z0)) by (exists lft; split; auto). rewrite <- El. lia.
       * lia.
+Qed.
+
+(* ---- the new point lies on the reference boundary of the first objective: it goes behind the right sentinel *)
+Lemma step_zero j st F Z0 : GInv j st F Z0 -> (j < n)%nat -> f1 (nth j pts d0) = 0 ->
+  let st' := step3 pts st (j, nth j pts d0) in
+  GInv (S j) st' F (Z0 ++ [ip j]) /\
+    forall k, (k < n)%nat ->
+      nth k (contr st') 0 + (if inF (F ++ Z0 ++ [ip j]) k then val (nth k (boxes st') []) (f3 (nth j pts d0)) else 0) =
+      nth k (contr st) 0 + (if inF (F ++ Z0) k then val (nth k (boxes st) []) (f3 (nth j pts d0)) else 0).
+Proof.
+  intros HG Hj Hz. cbv zeta.
+  destruct (step_decomp j st F Z0 HG Hj) as (F1 & D & E & G & EF & HF1 & HDEG & HD & HEG & HE & HGg & Estep).
+  rewrite Estep. clear Estep. destruct (Z.ltb_spec (f1 (nth j pts d0)) 0) as [|_]; [lia|].
+  set (p := nth j pts d0) in *.
+  pose proof HG as (G0 & G1 & G2 & G3 & GZ & G4 & G5 & BL & CL & Bn & Bj & B1 & B2). unfold Lb in B1, B2.
+  destruct (pt_box j Hj) as (P1 & P2 & P3). fold p in P1, P2, P3.
+  destruct (Hninf _ (nth_In pts d0 Hj)) as [Np1 Np2]. fold p in Np1, Np2.
+  assert (Hjn : (j <= n)%nat) by lia.
+  assert (Hnil : D ++ E ++ G = []).
+  { destruct (D ++ E ++ G) as [|e t] eqn:X; auto. exfalso.
+    assert (In e F) by (rewrite EF; apply in_or_app; right; now left).
+    pose proof (G3 e H). pose proof (HDEG e (or_introl eq_refl)). lia. }
+  apply app_eq_nil in Hnil. destruct Hnil as [-> Hnil]. apply app_eq_nil in Hnil. destruct Hnil as [-> ->].
+  cbn [app] in *. rewrite app_nil_r in EF. subst F1.
+  set (lft := lft_of pts ninf F). cbn [rgt_of].
+  assert (FE : forall e, In e (F ++ Z0) ->
+            (idx e < j)%nat /\ f1 e = f1 (nth (idx e) pts d0) /\ f2 e = f2 (nth (idx e) pts d0) /\
+            f3 e = f3 (nth (idx e) pts d0) /\ (c0 <= f1 e <= 0) /\ (b0 <= f2 e <= 0)).
+  { intros e He. apply (front_elem j st F Z0 e HG Hjn He). }
+  assert (EqIdx : forall e e', In e (F ++ Z0) -> In e' (F ++ Z0) -> idx e = idx e' -> e = e').
+  { intros e e' He He' Hi. rewrite (proj2 (G1 e He)), (proj2 (G1 e' He')), Hi. reflexivity. }
+  assert (InFZ : forall e, In e F -> In e (F ++ Z0)) by (intros e He; apply in_or_app; auto).
+  assert (Lf : (idx lft <= n)%nat /\ f2 p <= f2 lft /\ f2 lft <= 0 /\ c0 <= f1 p /\
+               ((F = [] /\ lft = sentL) \/ In lft F)).
+  { destruct (lft_cases F) as [[E1 E2]|[E1 E2]]; fold lft in E2.
+    - rewrite E2. cbn [sentL C13Contrib3dStepProofs.sentL idx f1 f2]. repeat split; try lia. left. auto.
+    - destruct (FE lft (InFZ _ E2)) as (X1 & X2 & X3 & X4 & X5 & X6).
+      pose proof (earlier_left_higher j st F Z0 lft HG Hj E2 (HF1 _ E2)). fold p in H.
+      repeat split; try lia. right; auto. }
+  destruct Lf as (Lf1 & Lf3 & Lf3' & Lf0 & Lf5).
+  unfold new_boxes, new_contr.
+  assert (LftBox : SB (f1 lft) (f2 lft) (nth (idx lft) (boxes st) []) /\ Forall (box_ok c0 b0) (nth (idx lft) (boxes st) [])).
+  { destruct Lf5 as [[_ ->]|Hin]; [cbn [sentL C13Contrib3dStepProofs.sentL idx]; rewrite Bn; split; [split; [constructor|split; constructor]|constructor]|].
+    apply (B1 lft (InFZ _ Hin)). }
+  assert (Hlx : f1 lft <= f1 p).
+  { destruct Lf5 as [[_ ->]|Hin]; [cbn; lia|]. pose proof (HF1 _ Hin). lia. }
+  destruct (cut_left (nth (idx lft) (boxes st) []) p) as [aL lL] eqn:ECL.
+  destruct (cut_left_cells (f1 lft) (f2 lft) p _ _ _ (proj1 LftBox) ECL Hlx) as [SBL CntL].
+  pose proof (cut_left_val _ _ _ _ ECL) as ValL.
+  pose proof (cut_left_ok c0 b0 p _ _ _ ltac:(lia) (proj2 LftBox) ECL) as OkL.
+  assert (Hb1 : nth (idx sentR) (upd (idx lft) lL (boxes st)) [] = []).
+  { cbn [sentR C13Contrib3dStepProofs.sentR idx]. rewrite nth_upd. destruct (Nat.eqb_spec (idx lft) n) as [Heq|?Hneq]; auto. cbn [andb].
+    destruct (idx lft <? length (boxes st))%nat; auto.
+    destruct Lf5 as [[_ L1]|Hin]; [|destruct (FE lft (InFZ _ Hin)); lia].
+    rewrite L1 in ECL. cbn [sentL C13Contrib3dStepProofs.sentL idx] in ECL. rewrite Bn in ECL. cbn in ECL. now inversion ECL. }
+  rewrite Hb1. cbn [cut_right map rev fold_left].
+  cbn [sentR C13Contrib3dStepProofs.sentR idx f1].
+  set (b2 := upd n [] (upd (idx lft) lL (boxes st))).
+  assert (Hb2 : forall k, nth k b2 [] = if (n =? k)%nat then [] else if (idx lft =? k)%nat then lL else nth k (boxes st) []).
+  { intros k. unfold b2. rewrite !nth_upd, !upd_length, BL.
+    assert (X1 : (n <? S n)%nat = true) by (apply Nat.ltb_lt; lia).
+    assert (X2 : (idx lft <? S n)%nat = true) by (apply Nat.ltb_lt; lia).
+    now rewrite X1, X2, !andb_true_r. }
+  assert (Hlj : idx lft <> j).
+  { destruct Lf5 as [[_ ->]|Hin]; [cbn; lia|]. destruct (FE lft (InFZ _ Hin)). lia. }
+  assert (Hb2j : nth j b2 [] = []).
+  { rewrite Hb2. destruct (Nat.eqb_spec n j) as [?Heq|?Hneq]; [lia|]. destruct (Nat.eqb_spec (idx lft) j) as [?Heq|?Hneq]; [lia|]. apply Bj. lia. }
+  rewrite Hb2j, app_nil_r.
+  set (NEW := mkboxes p (f1 p) (f2 lft) [] 0).
+  assert (HSt : stairs (f1 p) (f2 lft) [] 0) by (cbn; lia).
+  destruct (mkboxes_SB p [] (f1 p) (f2 lft) 0 HSt Lf3 ltac:(intros d [])) as [SBN _].
+  pose proof (mkboxes_ok c0 b0 p [] (f1 p) (f2 lft) 0 HSt Lf3 ltac:(intros d []) Lf0 ltac:(lia) ltac:(lia) Lf3') as OkN.
+  pose proof (mkboxes_cells p [] (f1 p) (f2 lft) 0 HSt) as CntN.
+  pose proof (mkboxes_val p (f1 p) (f2 lft) [] 0) as ValN. fold NEW in SBN, OkN, CntN, ValN.
+  assert (Hbx : forall k, nth k (upd j NEW b2) [] =
+            if (j =? k)%nat then NEW else if (n =? k)%nat then [] else if (idx lft =? k)%nat then lL else nth k (boxes st) []).
+  { intros k. unfold b2. apply nth_upd3; auto. }
+  assert (InNew : forall e, In e (F ++ Z0 ++ [ip j]) <-> e = ip j \/ In e (F ++ Z0)).
+  { intros e. rewrite !in_app_iff. cbn [In]. split; intros H; intuition auto. }
+  split.
+  { unfold GInv, Lb. cbn [front boxes contr].
+    split; [cbn [app]; rewrite <- ?app_assoc; reflexivity|].
+    split.
+    { intros e He. apply InNew in He. destruct He as [->|He]; [cbn [ip C13Contrib3dStepProofs.ip idx]; split; [lia|reflexivity]|].
+      destruct (G1 e He) as [X1 X2]. split; [lia|exact X2]. }
+    split.
+    { rewrite app_assoc, map_app. cbn [map]. apply (Permutation_NoDup (l := idx (ip j) :: map idx (F ++ Z0))).
+      - apply Permutation_cons_append.
+      - constructor; auto. intros Hc. apply in_map_iff in Hc. destruct Hc as [e [He1 He2]].
+        destruct (FE e He2). cbn [ip C13Contrib3dStepProofs.ip idx] in He1. lia. }
+    split; [exact G3|].
+    split.
+    { intros e He. apply in_app_or in He. destruct He as [He|[<-|[]]]; [apply GZ; auto|exact Hz]. }
+    split; [exact G4|].
+    split.
+    { intros k Hk. destruct (Nat.eq_dec k j) as [->|Hkj].
+      - left. apply InNew. now left.
+      - destruct (G5 k ltac:(lia)) as [Hin|Hex]; [left; apply InNew; auto|right; exact Hex]. }
+    split; [unfold b2; rewrite !upd_length; auto|].
+    split; [now rewrite !add_at_length|].
+    split.
+    { rewrite Hbx. destruct (Nat.eqb_spec j n) as [?Heq|?Hneq]; [lia|]. now rewrite Nat.eqb_refl. }
+    split.
+    { intros k Hk. rewrite Hbx. destruct (Nat.eqb_spec j k) as [?Heq|?Hneq]; [lia|]. destruct (Nat.eqb_spec n k) as [?Heq|?Hneq]; [lia|].
+      destruct (Nat.eqb_spec (idx lft) k) as [El|?Hneq]; [|apply Bj; lia].
+      destruct Lf5 as [[_ L1]|Hin]; [rewrite L1 in El; cbn in El; lia|destruct (FE lft (InFZ _ Hin)); lia]. }
+    assert (Cases : forall e, In e (F ++ Z0 ++ [ip j]) ->
+              (e = ip j) \/
+              (In e (F ++ Z0) /\ e = lft /\ In lft F /\ nth (idx e) (upd j NEW b2) [] = lL) \/
+              (In e (F ++ Z0) /\ nth (idx e) (upd j NEW b2) [] = nth (idx e) (boxes st) [])).
+    { intros e He. apply InNew in He. destruct He as [->|He]; [now left|right].
+      destruct (FE e He) as (Xi & _).
+      rewrite Hbx. destruct (Nat.eqb_spec j (idx e)) as [?Heq|?Hneq]; [lia|]. destruct (Nat.eqb_spec n (idx e)) as [?Heq|?Hneq]; [lia|].
+      destruct (Nat.eqb_spec (idx lft) (idx e)) as [El|Nel]; [left|right; auto].
+      destruct Lf5 as [[_ L1]|Hin]; [rewrite L1 in El; cbn in El; lia|].
+      pose proof (EqIdx lft e (InFZ _ Hin) He El). subst e. auto. }
+    split.
+    { intros e He. destruct (Cases e He) as [->|[(H1 & -> & H3 & ->)|(H1 & ->)]].
+      - cbn [ip C13Contrib3dStepProofs.ip idx f1 f2]. rewrite Hbx, Nat.eqb_refl. fold p. split; auto.
+      - split; auto.
+      - apply B1; auto. }
+    { intros e He v w Hv Hw. rewrite (firstn_S_snoc pts d0 j Hj). fold p.
+      assert (HlenA : length (firstn j pts) = j) by (rewrite firstn_length; lia).
+      assert (Cp : cov2b p v w = false) by (unfold cov2b; destruct (Z.leb_spec (f1 p) v); [lia|reflexivity]).
+      destruct (Cases e He) as [->|[(H1 & -> & H3 & ->)|(H1 & ->)]].
+      - cbn [ip C13Contrib3dStepProofs.ip idx]. rewrite Hbx, Nat.eqb_refl.
+        rewrite <- HlenA at 2. rewrite exclP2_snoc_new, Cp. rewrite CntN. cbn [andb b2z].
+        destruct (Z.leb_spec (f1 p) v); [lia|]. reflexivity.
+      - destruct (FE lft H1) as (X0 & _). rewrite CntL. rewrite exclP2_snoc_old by lia. rewrite Cp, andb_true_r.
+        destruct (Z.ltb_spec v (f1 p)); [|lia]. apply B2; auto.
+      - destruct (FE e H1) as (X0 & _). rewrite exclP2_snoc_old by lia. rewrite Cp, andb_true_r. apply B2; auto. } }
+  intros k Hk. cbn [contr boxes].
+  rewrite !nth_add_at by (rewrite ?add_at_length, CL; lia). rewrite Hbx.
+  assert (InFt : forall FZ, (exists e, In e FZ /\ idx e = k) -> inF FZ k = true) by (intros FZ H; apply inF_true; auto).
+  assert (InFf : forall FZ, (forall e, In e FZ -> idx e <> k) -> inF FZ k = false).
+  { intros FZ H. destruct (inF FZ k) eqn:X; auto. apply inF_true in X. destruct X as [e [X1 X2]]. exfalso. exact (H e X1 X2). }
+  destruct (Nat.eqb_spec n k) as [?Heq|?Hneq]; [lia|].
+  destruct (Nat.eqb_spec j k) as [<-|Nj].
+  - destruct (Nat.eqb_spec (idx lft) j) as [?Heq|?Hneq]; [lia|].
+    rewrite (InFt (F ++ Z0 ++ [ip j])) by (exists (ip j); split; [apply InNew; now left|reflexivity]).
+    rewrite (InFf (F ++ Z0)) by (intros e He; destruct (FE e He); lia).
+    rewrite ValN. lia.
+  - assert (SameIn : inF (F ++ Z0 ++ [ip j]) k = inF (F ++ Z0) k).
+    { destruct (inF (F ++ Z0) k) eqn:X.
+      - apply inF_true in X. destruct X as [e [X1 X2]]. apply InFt. exists e. split; auto. apply InNew. auto.
+      - apply InFf. intros e He Hi. apply InNew in He. destruct He as [->|He]; [cbn in Hi; lia|].
+        assert (X' : inF (F ++ Z0) k = true) by (apply InFt; exists e; split; auto). congruence. }
+    rewrite SameIn. destruct (Nat.eqb_spec (idx lft) k) as [El|Nl]; [|lia].
+    destruct Lf5 as [[_ L1]|Hin]; [rewrite L1 in El; cbn in El; lia|].
+    rewrite (InFt (F ++ Z0)) by (exists lft; split; auto). rewrite <- El. lia.
 Qed.
 
 End Inv.
